@@ -22,6 +22,7 @@ type declModel struct {
 	Raw  string `json:"raw_doc,omitempty"` // the doc comment as written
 	Body string `json:"body,omitempty"`    // bytes strictly between the braces, TrimSpace'd
 	Sig  string `json:"sig,omitempty"`     // from the method name to the opening brace
+	Res  string `json:"results,omitempty"` // the result list as written
 	Src  string `json:"src"`               // bytes from Pos() to End()
 }
 
@@ -91,6 +92,9 @@ func parseFile(path string) (*fileModel, error) {
 			if x.Body != nil {
 				dm.Body = strings.TrimSpace(src[off(x.Body.Pos())+1 : off(x.Body.End())-1])
 				dm.Sig = strings.TrimSpace(src[off(x.Name.Pos()):off(x.Body.Pos())])
+				if x.Type.Results != nil {
+					dm.Res = strings.Join(strings.Fields(src[off(x.Type.Results.Pos()):off(x.Type.Results.End())]), " ")
+				}
 			}
 		case *ast.GenDecl:
 			switch x.Tok {
@@ -183,7 +187,7 @@ func (d declModel) coq() string {
 	case "func":
 		kind = "KFunc " + cstr(d.Name)
 	}
-	return fmt.Sprintf("{| d_kind := %s; d_doc := %s; d_rawdoc := %s; d_body := %s; d_src := %s |}", kind, cstr(strings.TrimSpace(d.Doc)), cstr(rawLines(d.Raw)), cstr(d.Body), cstr(normSpace(d.Src)))
+	return fmt.Sprintf("{| d_kind := %s; d_doc := %s; d_rawdoc := %s; d_body := %s; d_results := %s; d_src := %s |}", kind, cstr(strings.TrimSpace(d.Doc)), cstr(rawLines(d.Raw)), cstr(d.Body), cstr(d.Res), cstr(normSpace(d.Src)))
 }
 
 // rawLines: the lines of a doc comment as written, without comment markers and without empty lines.
